@@ -41,6 +41,9 @@ impl fmt::Display for Id {
 struct Resolver {
     interned: BTreeSet<Rc<String>>,
     input: BTreeMap<Id, Rc<Def>>,
+    /// Long names of base units, which are defined along with the
+    /// base unit itself.
+    long_names: BTreeMap<Id, Id>,
     sorted: Vec<Id>,
     unmarked: BTreeSet<Id>,
     temp_marks: BTreeSet<Id>,
@@ -136,6 +139,12 @@ impl Resolver {
     }
 
     fn visit(&mut self, id: &Id) {
+        // A base unit's long name comes into existence with the base unit.
+        if self.unmarked.get(id).is_none() {
+            if let Some(base_unit) = self.long_names.get(id).cloned() {
+                return self.visit(&base_unit);
+            }
+        }
         if self.temp_marks.get(id).is_some() {
             self.errors
                 .push(format!("Unit {} has a dependency cycle", id));
@@ -288,6 +297,7 @@ pub(crate) fn load_defs(ctx: &mut Context, defs: Defs) -> Vec<String> {
     let mut resolver = Resolver {
         interned: BTreeSet::new(),
         input: BTreeMap::new(),
+        long_names: BTreeMap::new(),
         sorted: vec![],
         unmarked: BTreeSet::new(),
         temp_marks: BTreeSet::new(),
@@ -308,12 +318,18 @@ pub(crate) fn load_defs(ctx: &mut Context, defs: Defs) -> Vec<String> {
         } = *def
         {
             let long_name = resolver.intern(long_name);
-            resolver.input.insert(
+            let long_id = Id {
+                namespace: Namespace::Unit,
+                name: long_name,
+            };
+            resolver.input.insert(long_id.clone(), def.clone());
+            let name = resolver.intern(&name);
+            resolver.long_names.insert(
+                long_id,
                 Id {
                     namespace: Namespace::Unit,
-                    name: long_name,
+                    name,
                 },
-                def.clone(),
             );
         }
 
